@@ -218,6 +218,32 @@ def gen_cases(rng, tier):
                     out.append(("rest core", X.let(p, target, body)))
                 else:
                     out.append(("rest core", X.condpat(target, [(p, body), (X.pwild(), N(0))])))
+    # enumerated core: a name repeated across nesting levels and as the ...rest of a tuple / array, agreeing and disagreeing
+    V = X.var
+    def it(p):
+        return X.item(p)
+    for x, y in (("x", "y"), ("a", "b"), ("n", "m"), ("v1", "k"), ("t", "u"), ("q", "p")):
+        pats = [
+            (X.parr([it(X.pvar(x)), it(X.parr([it(X.pvar(y)), it(X.pvar(x))]))]), [X.arr([N(1), X.arr([N(2), N(1)])]), X.arr([N(1), X.arr([N(2), N(3)])])]),
+            (X.parr([it(X.parr([it(X.pvar(y)), it(X.pvar(x))])), it(X.pvar(x))]), [X.arr([X.arr([N(2), N(1)]), N(1)]), X.arr([X.arr([N(2), N(3)]), N(1)])]),
+            (X.ptup([("a", it(X.pvar(x))), ("b", it(X.ptup([("c", it(X.pvar(y))), ("d", it(X.pvar(x)))])))]),
+             [X.tup([("a", N(1)), ("b", X.tup([("c", N(2)), ("d", N(1))]))]), X.tup([("a", N(1)), ("b", X.tup([("c", N(2)), ("d", N(3))]))])]),
+            (X.parr([it(X.pvar(x)), it(X.ptup([("p", it(X.pvar(y))), ("q", it(X.pvar(x)))]))]),
+             [X.arr([N(1), X.tup([("p", N(2)), ("q", N(1))])]), X.arr([N(1), X.tup([("p", N(2)), ("q", N(0))])])]),
+            (X.ptup([("a", it(X.pvar(x))), ("", X.extra(x))]), [X.tup([("a", X.tup([("b", N(2))])), ("b", N(2))]), X.tup([("a", N(1)), ("b", N(2))])]),
+            (X.ptup([("a", it(X.pvar(y))), ("c", it(X.pvar(x))), ("", X.extra(x))]),
+             [X.tup([("a", N(0)), ("c", X.tup([("b", N(2))])), ("b", N(2))]), X.tup([("a", N(0)), ("c", N(1)), ("b", N(2))])]),
+            (X.parr([it(X.pvar(x)), X.extra(x)]), [X.arr([X.arr([N(2)]), N(2)]), X.arr([N(1), N(2)])]),
+            (X.parr([it(X.pvar(x)), it(X.pvar(y)), it(X.parr([it(X.pvar(y)), it(X.parr([it(X.pvar(x))]))]))]),
+             [X.arr([N(1), N(2), X.arr([N(2), X.arr([N(1)])])]), X.arr([N(1), N(2), X.arr([N(2), X.arr([N(5)])])]), X.arr([N(1), N(2), X.arr([N(7), X.arr([N(1)])])])]),
+        ]
+        for p, targets in pats:
+            bound = sorted(pat_names(p, set()))
+            body = X.tup([(z, V(z)) for z in bound])
+            for tg in targets:
+                out.append(("repeat core", X.let(p, tg, body)))
+                out.append(("repeat core", X.condpat(tg, [(p, body), (X.pwild(), N(0))])))
+                out.append(("repeat core", X.call(X.fn(p, body), tg)))
     # committed probes
     out += [("probe", X.let(X.parr([X.item(X.pvar("x")), X.item(X.pvar("x"))]), X.arr([N(1), X.string("1")]), X.var("x"))),
             ("probe", X.let(X.parr([X.item(X.pvar("a")), X.item(X.pvar("b"))]), X.arr([N(1), N(2)], 1), X.var("a"))),
@@ -243,7 +269,7 @@ def main(tier, seed, replay=None):
         if (outs.get(c["id"]) or {}).get("st") == "ok":
             nmatch += 1
     evalcheck.stats(run, cases, outs, codes,
-                    "random nested values (arrays, tuples, dicts, sets, numbers, strings) and patterns derived from them (names incl. repeated ones, _, literal and (expr) patterns, nested array/tuple/dict/set patterns (set patterns: literals with ...rest, literals with one name and exactly one / two or more members left over, literals only), ...rest at any position, trailing fallbacks) an enumerated core of [p1..pk, ...r, q1..qm] (k, m <= 2) against arrays of every length from two short to longer; matched against the value itself or a near-miss of it (one extra / missing element, offset, hole, one component changed, wrong kind) in `let P = V; (names)`, `(\\\\P body)(V)` and `cond V {P1:.., P2:.., _:0}`",
+                    "random nested values (arrays, tuples, dicts, sets, numbers, strings) and patterns derived from them (names incl. repeated ones, _, literal and (expr) patterns, nested array/tuple/dict/set patterns (set patterns: literals with ...rest, literals with one name and exactly one / two or more members left over, literals only), ...rest at any position, trailing fallbacks) an enumerated core of names repeated across nesting levels and as the ...rest of a tuple or array (agreeing and disagreeing values, six name pairs, let / cond / parameter), an enumerated core of [p1..pk, ...r, q1..qm] (k, m <= 2) against arrays of every length from two short to longer; matched against the value itself or a near-miss of it (one extra / missing element, offset, hole, one component changed, wrong kind) in `let P = V; (names)`, `(\\\\P body)(V)` and `cond V {P1:.., P2:.., _:0}`",
                     {"form_histogram": kinds, "programs_that_matched": nmatch, "exhaustive": False})
     run.assumptions = ["patterns with more than one of (...rest | fallback) per level are rejected by the implementation as 'non-deterministic' and are not generated"]
     return run.finish(proof)
